@@ -17,7 +17,9 @@ RULE = ('Hypothesis-generated histories (10-30 steps: open PR on any '
         'repository; inclusion chain (computed from names only) checked '
         'after every ref transaction Bert-E makes on a destination and '
         'after every job. Non-trivial = history in which Bert-E moved at '
-        'least one destination branch; distinct by hash of (params, steps).')
+        'least one destination branch; distinct by hash of (params, steps). '
+        'Plus the multi-path queue shapes of corpus/c05_disagreements.json '
+        'rebuilt on real git (quick: 64, thorough: all).')
 ASSUMPTIONS = ['in-tree mock git host; real git 2.39 on a local bare remote',
                'premise evaluated on the pre-job refs: jobs starting from a '
                'broken chain are counted (c01_premise_false), not judged']
@@ -110,8 +112,22 @@ def shard(ctx, i, acc):
             prelude=prelude, params_kw={'stab_bias': i % 2 == 1})
 
 
+def any_shard(ctx, job, acc):
+    kind, i = job
+    if kind == 'corpus':
+        # the multi-path queue shapes of corpus/c05_disagreements.json,
+        # rebuilt on real git and merged, judged by the chain monitor
+        from vf.checks import c03
+        c03.corpus_shard(ctx, i, acc, monitors_fn=monitors, per_shard=4,
+                         nontrivial_fn=nontrivial)
+    else:
+        shard(ctx, i, acc)
+
+
 def run(ctx):
-    return run_shards(__name__, 'shard', ctx, list(range(ctx['nproc'])))
+    jobs = [('hist', i) for i in range(ctx['nproc'])] + \
+        [('corpus', i) for i in range(ctx['nproc'])]
+    return run_shards(__name__, 'any_shard', ctx, jobs)
 
 
 def replay(ctx, case, acc):
